@@ -36,6 +36,8 @@ def parseInstr (j : Json) : Except String Instr := do
   match tag with
   | "enter" => Instr.enter <$> x.getNat?
   | "exit" => pure .exit
+  | "wenter" => Instr.wenter <$> x.getNat?
+  | "wexit" => pure .wexit
   | "log" => Instr.log <$> x.getNat?
   | "yield" => Instr.yield <$> valOf x
   | "yieldLast" => pure .yieldLast
